@@ -111,3 +111,10 @@ def check(run):
     run.bounds.append(f"tier={t}: {len(ents)} operations of the native Edwards chip (Jubjub over the BLS12-381 scalar field), k=11")
     run.notes.append("Engine C: field products are uninterpreted with field lemmas and monomial normalisation (a product is determined by its multiset of cells), so degree-5 gate polynomials and the textbook equations share terms.")
     cengine.run_family(run, "edwards", ents, timeout=120 if t == "quick" else 600, only=getattr(run, "only", None), workers=6)
+    from vf.parts import run_parts
+    run_parts(run, "C06")
+
+
+def replay(payload):
+    from vf.parts import replay_parts
+    return replay_parts("C06", payload)
